@@ -23,6 +23,7 @@ func init() {
 		Rules: []RuleDef{
 			{ID: "C15.R1", Min: 1, Doc: "kind of the argument of GetDestinationIndex = NAME", Run: c15r1},
 			{ID: "C15.R2", Min: 3, Doc: "ring and destination list agree: in every function that builds a consistentHashingConfig the hasher is NewConsistentHasher(d) with d the stored dests; in updateDestination the extender call comes after Destination.Update", Run: c15r2},
+			{ID: "C15.R9", Min: 1, Doc: "purity: the functions that build the ring or look a key up in it use no package-level variable of package route (no memo of positions shared between hashers): the ring is a function of the destination list alone", Run: c15r9},
 			{ID: "C15.R3", Min: 5, Doc: "overrides: every exported baseRoute method that stores a configuration (directly or through helpers) is redeclared on *ConsistentHashing (that the override rebuilds the ring is C15.R2's path rule)", Run: c15r3},
 			{ID: "C15.R4", Min: 4, Doc: "ring construction constants: replica count 100; MD5 first two bytes, binary.BigEndian; key pieces; truth table of hashRing.Less against the lexicographic order (Position, Hostname, Instance)", Run: c15r4},
 			{ID: "C15.R6", Min: 1, Doc: "address splitting: an address with exactly two ':' is split into host:port (first two components joined by ':') and instance (third component); the ring key uses the host part before the first ':'", Run: c15r6},
@@ -897,4 +898,46 @@ func c15r8(c *Check) {
 	if n == 0 {
 		anchorFail("no store into ConsistentHasher.Ring")
 	}
+}
+
+// c15r9: the ring is a function of the configured destinations only: nothing that builds the ring or
+// looks a key up in it (NewConsistentHasher*, AddDestination, GetDestinationIndex and the functions of
+// package route they call) reads or writes a package-level variable — no memo of positions shared
+// between hashers, no global that routing could depend on besides its inputs.
+func c15r9(c *Check) {
+	roots := []*ssa.Function{
+		c.P.Func("route", "", "NewConsistentHasherReplicaCount"),
+		c.P.Func("route", "*ConsistentHasher", "AddDestination"),
+		c.P.Func("route", "*ConsistentHasher", "GetDestinationIndex"),
+		c.P.Func("route", "", "computeRingPosition"),
+	}
+	seen := map[*ssa.Function]bool{}
+	var fns []*ssa.Function
+	for _, r := range roots {
+		for _, f := range samePkgCallees(c.P, r) {
+			for _, g := range withAnons(f) {
+				if !seen[g] {
+					seen[g] = true
+					fns = append(fns, g)
+				}
+			}
+		}
+	}
+	bad := ""
+	for _, f := range fns {
+		allInstrs(f, func(in ssa.Instruction) {
+			for _, op := range in.Operands(nil) {
+				g, ok := (*op).(*ssa.Global)
+				if !ok || g.Pkg == nil || g.Pkg.Pkg.Path() != modPath+"/route" {
+					continue
+				}
+				// error values and the like that are only read and never assigned outside init are constants in effect
+				if strings.HasPrefix(g.Name(), "err") || strings.HasPrefix(g.Name(), "Err") {
+					continue
+				}
+				bad = FuncName(f) + " uses the package-level variable " + g.Name() + " at " + c.At(in)
+			}
+		})
+	}
+	c.Judge(bad == "", "route: the hash ring depends on the destination list only", c.AtFn(roots[1]), fmt.Sprintf("%d functions that build or query the ring use no package-level variable", len(fns)), bad+": ring positions (or the lookup) depend on state shared between hashers — e.g. a memo keyed by something coarser than (host, instance) hands one node the positions of another")
 }
